@@ -552,9 +552,18 @@ def edit_sentinel(check: Check, repo: Repo) -> None:
     if len(arms_if) != 1:
         raise AnalysisError("visit(): in_array arms of the edit application not found")
     arms = {"array arm": arms_if[0].body, "node arm": arms_if[0].orelse}
+    mod = repo.mod("language.visitor")
     for name, body in arms.items():
         uses = [n for s in body for n in ast.walk(s) if isinstance(n, ast.Name) and n.id == "edits"]
-        tests = [n for s in body for n in ast.walk(s) if isinstance(n, ast.Compare) and isinstance(n.ops[0], (ast.Is, ast.IsNot))
+        # the arm may delegate to a module-level helper that receives the edits: look into it as well
+        scopes: list[list[ast.stmt]] = [body]
+        for s in body:
+            for c in ast.walk(s):
+                if isinstance(c, ast.Call) and isinstance(c.func, ast.Name) and any(isinstance(a, ast.Name) and a.id == "edits" for a in c.args):
+                    helper = mod.defs.get(c.func.id)
+                    if isinstance(helper, (ast.FunctionDef, ast.AsyncFunctionDef)):
+                        scopes.append(helper.body)
+        tests = [n for sc in scopes for s in sc for n in ast.walk(s) if isinstance(n, ast.Compare) and isinstance(n.ops[0], (ast.Is, ast.IsNot))
                  and unparse(n.comparators[0]) == "REMOVE"]
         ok = bool(uses) and bool(tests)
         check.ob(rule, arms_if[0], f"{name} of the edit application handles REMOVE", ok,
@@ -618,7 +627,15 @@ def edit_offset(check: Check, repo: Repo) -> None:
     arms_if = [s for s in edited[0].body if isinstance(s, ast.If) and unparse(s.test) == "in_array"] if edited else []
     if not arms_if:
         raise AnalysisError("visit(): array arm of the edit application not found")
-    body = arms_if[0].body
+    body = list(arms_if[0].body)
+    # the arm may delegate to a module-level helper that receives the edits
+    vmod = repo.mod("language.visitor")
+    for s in list(body):
+        for c in ast.walk(s):
+            if isinstance(c, ast.Call) and isinstance(c.func, ast.Name) and any(isinstance(a, ast.Name) and a.id == "edits" for a in c.args):
+                helper = vmod.defs.get(c.func.id)
+                if isinstance(helper, (ast.FunctionDef, ast.AsyncFunctionDef)):
+                    body += helper.body
     removals = []
     for s in body:
         for n in ast.walk(s):
